@@ -3,8 +3,11 @@
 P="$1"; shift
 cd /repo || exit 2
 if ! git diff --quiet; then echo "repo dirty"; exit 2; fi
-git apply "$P" || { echo "patch does not apply"; exit 2; }
+if ! git apply "$P" 2>/dev/null; then
+  patch -p1 -F3 -s --no-backup-if-mismatch < "$P" || { echo "patch does not apply"; git checkout -- .; exit 2; }
+fi
 for id in "$@"; do
   (cd /verif && ./check "$id" 2>&1 | grep -E "^(violation|VIOLATION|OK|ENGINE|KNOWN)" | cut -c1-400)
 done
-git -C /repo checkout -- . 
+git -C /repo checkout -- .
+git -C /repo clean -fdq -- src c-api
